@@ -23,6 +23,9 @@ pvars == <<def, req, out>>
    [size, row0, col0] (size = 0 means the panel's own size, no offset) *)
 QuantityDev(d, r, dev) ==
     CASE r.q = "k0"  -> K0(d)
+      (* the same matrix from the numerically integrated kernel at the undeformed state: exact value, quadrature scale *)
+      [] r.q = "k0num" -> LET A == K0(d)  S == QuadScale(d)
+                          IN Fn([k \in 1..Len(A) |-> Fn([l \in 1..Len(A) |-> <<A[k][l][1], RAdd(A[k][l][2], S[k][l])>>])])
       [] r.q = "kG0" -> KG0(d, r.N)
       [] r.q = "kM"  -> KM(d, dev)
       [] r.q = "kA"  -> KA(d, r.flow, r.beta, r.gamma, dev)
@@ -38,7 +41,7 @@ QuantityDev(d, r, dev) ==
       [] r.q = "fint"   -> FintT(d, r.c, r.taper)
       [] r.q = "kT"     -> KTT(d, r.c, r.taper)
       [] r.q = "kGc"    -> KGStateT(d, r.c, r.NL, r.taper)
-IsMatrixReq(r) == r.q \in {"k0", "kG0", "kM", "kA", "cA", "kAmach", "kT", "kGc"}
+IsMatrixReq(r) == r.q \in {"k0", "k0num", "kG0", "kM", "kA", "cA", "kAmach", "kT", "kGc"}
 Placed(M, r) == IF r.size = 0 THEN M
                 ELSE IF r.q \in {"fext", "fint"} THEN PlaceVec(M, r.size, r.col0) ELSE Place(M, r.size, r.row0, r.col0)
 Quantity(d, r) == Placed(QuantityDev(d, r, Deviations), r)
